@@ -10,7 +10,11 @@ pub fn features() -> &'static str {
         (true, true, true) => "default",
         (false, false, false) => "none",
         (false, true, true) => "mixed",
-        _ => "other",
+        (true, false, false) => "uw",
+        (false, true, false) => "ulb",
+        (false, false, true) => "smawk",
+        (true, true, false) => "uw_ulb",
+        (true, false, true) => "uw_smawk",
     }
 }
 
@@ -51,7 +55,13 @@ pub fn main_with(find: fn(&str) -> Option<Prop>) -> i32 {
                 thorough: flag(&args, "--thorough"),
                 seed: arg(&args, "--seed").and_then(|s| s.parse().ok()).unwrap_or(1),
                 threads: arg(&args, "--threads").and_then(|s| s.parse().ok()).unwrap_or(16),
-                cases: arg(&args, "--cases").and_then(|s| s.parse().ok()),
+                cases: arg(&args, "--cases").and_then(|s| s.parse().ok()).or_else(|| {
+                    // --scale f: a fraction of the tier's case budget
+                    arg(&args, "--scale").and_then(|s| s.parse::<f64>().ok()).map(|f| {
+                        let b = if flag(&args, "--thorough") { prop.budget.1 } else { prop.budget.0 };
+                        ((b as f64) * f) as u64
+                    })
+                }),
                 flavour: format!("{}/{}", build_kind(), features()),
                 journal: arg(&args, "--journal"),
                 deadline: Duration::from_secs(arg(&args, "--deadline").and_then(|s| s.parse().ok()).unwrap_or(600)),
